@@ -40,9 +40,10 @@ structure InvL (g : Graph) (s : St) : Prop where
   visitedFin : ∀ v, s.status v = .visited → g.skip v = true ∨ v ∈ finishes s.log
   depsVisited : ∀ v, (pendEnter s v ∨ s.status v ≠ .absent) → ∀ d ∈ g.pre v, s.status d = .visited
   logOK : LogOK g s.log
+  startedVerts : ∀ v, v ∈ starts s.log → v ∈ g.verts
 
 theorem init_invL (g : Graph) : InvL g (init g) := by
-  refine ⟨by simp [init, starts], by simp [init, finishes], ?_, ?_, ?_, ?_, ?_, ?_, ?_, by simp [init, LogOK]⟩
+  refine ⟨by simp [init, starts], by simp [init, finishes], ?_, ?_, ?_, ?_, ?_, ?_, ?_, by simp [init, LogOK], by simp [init, starts]⟩
   · intro v _; simp [init, starts]
   · intro v h; simp [init] at h
   · intro v h; simp [init, finishes] at h
@@ -287,7 +288,7 @@ theorem mem_starts_of {v : V} {l : List Ev} (h : Ev.start v ∈ l) : v ∈ start
   unfold starts; rw [List.mem_filterMap]; exact ⟨_, h, rfl⟩
 
 theorem invL_step {g : Graph} {lim : Option Nat} {s s' : St} {l : Label}
-    (h : Step g lim s l s') (hA : InvA s) (hL : InvL g s) : InvL g s' := by
+    (h : Step g lim s l s') (hA : InvA s) (hB : InvB g s) (hL : InvL g s) : InvL g s' := by
   have hA' := invA_step h hA
   have hlog := step_log h
   -- the two lists only grow
@@ -300,7 +301,7 @@ theorem invL_step {g : Graph} {lim : Option Nat} {s s' : St} {l : Label}
   have hmem_sub : ∀ x, x ∈ s.log → x ∈ s'.log := by
     intro x hx
     rcases hlog with e | ⟨v, _, _, _, e⟩ | ⟨v, b, _, _, e⟩ <;> rw [e] <;> simp [hx]
-  refine ⟨?_, ?_, ?_, ?_, ?_, ?_, ?_, ?_, ?_, ?_⟩
+  refine ⟨?_, ?_, ?_, ?_, ?_, ?_, ?_, ?_, ?_, ?_, ?_⟩
   · -- startsNodup
     rcases hlog with e | ⟨v, _, _, hw, e⟩ | ⟨v, b, _, _, e⟩
     · rw [e]; exact hL.startsNodup
@@ -440,5 +441,14 @@ theorem invL_step {g : Graph} {lim : Option Nat} {s s' : St} {l : Label}
       · rw [hk] at hk'; cases hk'
       · exact hf
     · rw [e]; exact hL.logOK
+  · -- startedVerts
+    intro u hu
+    rcases hlog with e | ⟨v, _, _, hw, e⟩ | ⟨v, b, _, _, e⟩
+    · rw [e] at hu; exact hL.startedVerts u hu
+    · rw [e, starts_start, List.mem_cons] at hu
+      rcases hu with rfl | hu
+      · exact hB.wkVerts _ _ hw
+      · exact hL.startedVerts u hu
+    · rw [e, starts_finish] at hu; exact hL.startedVerts u hu
 
 end CV.Trav
